@@ -59,8 +59,10 @@ def main():
         ts.sort(key=lambda x: json.dumps(x))
         return ts
     tz, tq = load(fz, 'z'), load(fq, 'q')
-    if mz and len(tz) > mz: tz = rng.sample(tz, mz)
-    if mq and len(tq) > mq: tq = rng.sample(tq, mq)
+    depth = lambda t: 0 if t[0] in ('v', 'si', 'ui', 'dd') else 1 + max(depth(x) for x in t[1:])
+    # the depth-1 trees (one operator, every leaf pair incl. the extreme built-in operands) are always all kept; sampling applies to depth >= 2
+    if mz and len(tz) > mz: d1 = [t for t in tz if depth(t) <= 1 or (depth(t) == 2 and t[0] in ('/', '%') and depth(t[1]) == 0)]; rest = [t for t in tz if t not in d1]; tz = d1 + rng.sample(rest, min(len(rest), mz))
+    if mq and len(tq) > mq: d1 = [t for t in tq if depth(t) <= 1]; rest = [t for t in tq if t not in d1]; tq = d1 + rng.sample(rest, min(len(rest), mq))
     os.makedirs(outdir, exist_ok=True)
     items = []      # (kind, cxx statement pieces)
     n = 0
